@@ -62,10 +62,8 @@ Definition status_code (line : bytes) : bytes :=
   end.
 
 Definition no_body_status (code : bytes) : bool :=
-  match code with
-  | 49 :: _ => true                                  (* 1xx *)
-  | _ => beqb code [50; 48; 52] || beqb code [51; 48; 52]   (* 204, 304 *)
-  end.
+  match code with x :: _ => x =? 49 | [] => false end          (* 1xx *)
+  || beqb code [50; 48; 52] || beqb code [51; 48; 52].        (* 204, 304 *)
 
 Inductive framing := FNoBody | FChunked | FLength (n : N) | FEof.
 
